@@ -375,11 +375,126 @@ fn run_case(case: &Case) -> Result<String, (String, String)> {
     })
 }
 
+/// Live WAL: a node wired like `server_persistent` with FsyncPolicy::Always (real WalActor over the logging store) and
+/// gossip enabled runs `cmds` one after another. Right before every WAL I/O call takes effect - and after every reply -
+/// the gossip loop is assumed to fire: whatever is in the outbox is sent to a peer. Then, for EVERY prefix of the I/O log:
+/// crash (unsynced bytes lost), recover a new node from the WAL as the server does, run `post`: the new write's stamp
+/// must be greater than every stamp a peer had been sent for that key, and the peer must serve the new value.
+fn live_wal_case(gce: usize, cmds: &[&str], post: &str) -> Result<u64, (String, String)> {
+    use redis_sim::streaming::{spawn_wal_actor, FsyncPolicy, WalConfig};
+    let rt = tokio::runtime::Builder::new_current_thread().enable_time().start_paused(true).build().unwrap();
+    let replay = json!({"live_wal": true, "gce": gce, "cmds": cmds, "post": post});
+    let desc = format!("node with an always-fsync WAL (group commit {gce}) and gossip: [{}], crash, WAL recovery, then `{post}`", cmds.join("; "));
+    rt.block_on(async {
+        let store = VWalStore::new();
+        let cfg = WalConfig {
+            enabled: true,
+            wal_dir: "/nonexistent".into(),
+            fsync_policy: FsyncPolicy::Always,
+            max_file_size: 1 << 30,
+            group_commit_max_entries: gce,
+            group_commit_max_wait: Duration::from_millis(5),
+            truncation_check_interval: Duration::from_secs(3600),
+        };
+        let (handle, _join) = spawn_wal_actor(store.clone(), cfg).map_err(|e| ("live-wal: spawn failed".to_string(), format!("{desc}: {e}")))?;
+        let mut node = new_node(false);
+        node.set_wal_handle(handle);
+        let gs = node.get_gossip_state().expect("locked gossip outbox");
+        // (I/O calls logged when it was sent, delta)
+        let sent: Arc<std::sync::Mutex<Vec<(usize, ReplicationDelta)>>> = Default::default();
+        {
+            let (gs, sent) = (gs.clone(), sent.clone());
+            store.set_observer(Arc::new(move |logged| {
+                for m in gs.write().drain_outbound() {
+                    if let Some(ds) = m.message.into_deltas() {
+                        sent.lock().unwrap().extend(ds.into_iter().map(|d| (logged, d)));
+                    }
+                }
+            }));
+        }
+        for c in cmds {
+            let reply = node.execute(resp::parse(&resp::line(c)).unwrap()).await;
+            if resp::is_err(&reply) {
+                return Err(("live-wal: command failed".to_string(), format!("{desc}: `{c}` replied {}", resp::show(&reply))));
+            }
+            let logged = store.log().len();
+            for m in gs.write().drain_outbound() {
+                if let Some(ds) = m.message.into_deltas() {
+                    sent.lock().unwrap().extend(ds.into_iter().map(|d| (logged, d)));
+                }
+            }
+        }
+        let log = store.log();
+        let sent = sent.lock().unwrap().clone();
+        let key = key_of(post);
+        let mut images = 0u64;
+        for p in 0..=log.len() {
+            let seen: Vec<&ReplicationDelta> = sent.iter().filter(|(at, d)| *at <= p && d.key == key).map(|(_, d)| d).collect();
+            if seen.is_empty() {
+                continue;
+            }
+            images += 1;
+            let img = VWalStore::crash_image(&log, p);
+            let rot = WalRotator::new(VWalStore::from_image(&img), 1 << 30).map_err(|e| ("live-wal: recovery failed".to_string(), format!("{desc}: {e}")))?;
+            let mut wal_deltas = Vec::new();
+            for e in rot.recover_all_entries().map_err(|e| ("live-wal: recovery failed".to_string(), format!("{desc}: {e}")))? {
+                wal_deltas.push(e.to_delta().map_err(|e| ("live-wal: recovery failed".to_string(), format!("{desc}: {e}")))?);
+            }
+            let n2 = new_node(false);
+            n2.apply_recovered_state(None, wal_deltas.clone());
+            let _ = n2.snapshot_state().await;
+            let _ = n2.execute(resp::parse(&resp::line(post)).unwrap()).await;
+            let ds = n2.collect_pending_deltas().await;
+            let Some(d_new) = ds.iter().find(|d| d.key == key) else { continue };
+            let new_stamp = stamp_of(&d_new.value);
+            let mut peer: Option<ReplicatedValue> = None;
+            for d in &seen {
+                peer = Some(match peer { None => d.value.clone(), Some(v) => v.merge(&d.value) });
+            }
+            let peer = peer.unwrap();
+            let max_seen = seen.iter().flat_map(|d| all_stamps(&d.value)).max().unwrap();
+            let cmdname = post.split(' ').next().unwrap();
+            if new_stamp <= max_seen {
+                return Err((
+                    format!("live-wal: stamp-reissued-after-crash write={cmdname}"),
+                    format!("{desc}: crash after {p} of {} WAL I/O calls ({} updates recovered); a peer had been sent stamp {:?} for key {key} (value {}), the restarted node stamps `{post}` with {:?}", log.len(), wal_deltas.len(), max_seen, vh::persist_kit::project(&peer), new_stamp),
+                ));
+            }
+            let merged = peer.merge(&d_new.value);
+            if client_view(&merged) != client_view(&d_new.value) {
+                return Err((
+                    format!("live-wal: peer-keeps-old-value write={cmdname}"),
+                    format!("{desc}: crash after {p} of {} WAL I/O calls; the peer holds {} and, after merging the new delta {}, serves {}", log.len(), vh::persist_kit::project(&peer), vh::persist_kit::project(&d_new.value), client_view(&merged)),
+                ));
+            }
+        }
+        let _ = &replay;
+        Ok(images)
+    })
+}
+
+const LIVE_CMDS: &[&[&str]] = &[&["SET k a"], &["SET k a", "SET k b"], &["SET j x", "SET k a", "APPEND k y"], &["HSET h f v"], &["HSET h f v", "HSET h g w"], &["INCR n", "INCR n"], &["SET k a", "DEL k"]];
+
 fn main() {
     let args = cli::parse_args();
     vh::quiet_panics();
     if let Some(path) = &args.replay {
         let r = vh::report::load_replay(path);
+        if r["live_wal"] == json!(true) {
+            let cmds: Vec<String> = r["cmds"].as_array().unwrap().iter().map(|c| c.as_str().unwrap().to_string()).collect();
+            let cref: Vec<&str> = cmds.iter().map(|c| c.as_str()).collect();
+            match live_wal_case(r["gce"].as_u64().unwrap() as usize, &cref, r["post"].as_str().unwrap()) {
+                Ok(n) => {
+                    println!("replay: no violation ({n} crash points with something sent)");
+                    std::process::exit(0);
+                }
+                Err((sig, detail)) => {
+                    println!("{detail}");
+                    println!("VIOLATION property=C08 replay={} ({sig})", path.display());
+                    std::process::exit(1);
+                }
+            }
+        }
         let case = Case {
             events: r["events"].as_array().unwrap().iter().map(|e| EVENTS.iter().position(|x| *x == e.as_str().unwrap()).unwrap()).collect(),
             src: if r["recover_from"].is_null() { None } else { Some(Sources { segments: r["recover_from"]["segments"].as_bool().unwrap(), checkpoint: r["recover_from"]["checkpoint"].as_bool().unwrap(), wal: r["recover_from"]["wal"].as_bool().unwrap() }) },
@@ -488,12 +603,25 @@ fn main() {
             Err((sig, detail)) => rep.violation(sig, detail, case.json()),
         }
     });
+    // ---- live WAL: every crash point of a running node with an always-fsync WAL and gossip
+    let live_items: Vec<(usize, usize, usize)> = [1usize, 8].iter().flat_map(|g| (0..LIVE_CMDS.len()).flat_map(move |c| (0..POST.len()).map(move |p| (*g, c, p)))).filter(|(_, c, p)| LIVE_CMDS[*c].iter().any(|x| key_of(x) == key_of(POST[*p]))).collect();
+    let live_images: u64 = par::par_map(&live_items, |_, (g, c, p)| match live_wal_case(*g, LIVE_CMDS[*c], POST[*p]) {
+        Ok(n) => n,
+        Err((sig, detail)) => {
+            rep.violation(sig, detail, json!({"live_wal": true, "gce": g, "cmds": LIVE_CMDS[*c], "post": POST[*p]}));
+            0
+        }
+    })
+    .into_iter()
+    .sum();
     let outcomes = outcomes.into_inner().unwrap();
     let checked = outcomes.get("checked").copied().unwrap_or(0);
     let coverage = json!({
         "evaluations": n.load(Ordering::Relaxed),
         "distinct_nontrivial": checked,
         "rule": "every sequence of <=3 events (thorough adds length 4 over 6 core events) over {8 local writes on a string key, a hash key (single- and three-field HSET, HDEL) and a counter; 7 remote deltas from replicas 2/3 with stamps small / equal to the local one / far ahead, incl. a remote delete and a remote hash} on a real ReplicatedShardedState, with a crash after the last event and recovery from each of the 7 non-empty subsets of {segments, checkpoint, WAL} (plus the no-crash variant), followed by each of 15 further writes (one per command of the replicated set: SET plain / EX / KEEPTTL, GETSET, APPEND, INCR, DECR, INCRBY, DECRBY, DEL, HSET, HDEL, HINCRBY); plus every sequence of exactly 4 local events over 6 core events (incl. a three-field HSET, which advances the stamp by 3) with the emitted deltas grouped into segments so that the last two events (or all events) share a segment; plus, on a node running with ConsistencyLevel::Causal (values carry vector clocks, which a restart does not restore), every sequence of <= 2 (thorough 3) events x every source set x every further write; plus bulk cases: the key's two writes with 300 writes of other keys before, between or after them, every source set, three further writes, one segment per event or a single segment; a case is non-trivial when the post-restart write produced a delta for a key the node had observed, so that all three oracles (stamp strictly greater; a peer holding the observed value serves the new one after merging; a second recovery serves the new one) were evaluated",
+        "live_wal": {"cases": live_items.len(), "crash_points_with_something_sent": live_images,
+            "rule": "a node wired with an always-fsync WalActor (group commit 1 / 8) and the gossip outbox runs 1-3 commands; the outbox is emptied towards a peer right before every WAL I/O call takes effect and after every reply; for every prefix of the I/O log: crash image, WAL recovery into a new node, one further write of the key: its stamp exceeds every stamp the peer was sent, and the peer serves it after merging"},
         "causal_consistency_cases": causal_cases,
         "bulk_recovery_cases": bulk_cases,
         "event_sequences": seqs.len(),
